@@ -95,8 +95,64 @@ func c19CheckBuild(c *Check, root string, f family, vname string, r api.BuildRes
 		viol("family build failed (generator)", map[string]interface{}{"detail": r.Errors[0].Text})
 		return
 	}
+	// path style: with AbsPaths=metafile every path of the metafile is absolute, otherwise none is; after that check the
+	// project root is stripped so that the remaining checks see one form
+	metaText := r.Metafile
+	{
+		wantAbs := o.AbsPaths&api.MetafileAbsPath != 0
+		var g struct {
+			Inputs map[string]struct {
+				Imports []metaImport `json:"imports"`
+			} `json:"inputs"`
+			Outputs map[string]struct {
+				Imports    []metaImport           `json:"imports"`
+				EntryPoint string                 `json:"entryPoint"`
+				CSSBundle  string                 `json:"cssBundle"`
+				Inputs     map[string]interface{} `json:"inputs"`
+			} `json:"outputs"`
+		}
+		if json.Unmarshal([]byte(metaText), &g) == nil {
+			check := func(where, p string) {
+				if p == "" || strings.HasPrefix(p, "<") || strings.Contains(p, "<runtime>") || strings.HasPrefix(p, "data:") {
+					return
+				}
+				p = strings.TrimPrefix(p, "(disabled):")
+				if filepath.IsAbs(p) != wantAbs {
+					viol("metafile path does not follow the requested path style", map[string]interface{}{"detail": where + ": " + p, "want_absolute": wantAbs})
+				}
+			}
+			for k, in := range g.Inputs {
+				check("inputs key", k)
+				for _, im := range in.Imports {
+					if !im.External {
+						check("inputs["+k+"].imports", im.Path)
+					}
+				}
+			}
+			for k, out := range g.Outputs {
+				check("outputs key", k)
+				check("outputs["+k+"].entryPoint", out.EntryPoint)
+				check("outputs["+k+"].cssBundle", out.CSSBundle)
+				for ik := range out.Inputs {
+					check("outputs["+k+"].inputs key", ik)
+					if _, ok := g.Inputs[ik]; !ok && !strings.Contains(ik, "<runtime>") {
+						viol("output attributes bytes to a path that is not an input of the metafile", map[string]interface{}{"detail": k + " <- " + ik})
+					}
+				}
+				for _, im := range out.Imports {
+					if !im.External {
+						check("outputs["+k+"].imports", im.Path)
+					}
+				}
+			}
+		}
+		if wantAbs {
+			metaText = strings.ReplaceAll(metaText, "\""+filepath.ToSlash(root)+"/", "\"")
+			metaText = strings.ReplaceAll(metaText, "\"(disabled):"+filepath.ToSlash(root)+"/", "\"(disabled):")
+		}
+	}
 	var m metaFile
-	if err := json.Unmarshal([]byte(r.Metafile), &m); err != nil {
+	if err := json.Unmarshal([]byte(metaText), &m); err != nil {
 		viol("metafile is not valid JSON", map[string]interface{}{"detail": err.Error()})
 		return
 	}
@@ -222,7 +278,7 @@ func c19CheckBuild(c *Check, root string, f family, vname string, r api.BuildRes
 					hasMarker = true
 				}
 			}
-			if bi.BytesInOutput > 0 && !hasMarker && !strings.Contains(text, "// "+in) && !o.MinifyWhitespace && (strings.HasSuffix(rel, ".js") || strings.HasSuffix(rel, ".css")) && c19InputHasMarkers(f, in) && !c19BinaryAsset(in) {
+			if bi.BytesInOutput > 0 && !hasMarker && !strings.Contains(text, "// "+in) && !strings.Contains(text, "// "+filepath.ToSlash(filepath.Join(root, in))) && !o.MinifyWhitespace && (strings.HasSuffix(rel, ".js") || strings.HasSuffix(rel, ".css")) && c19InputHasMarkers(f, in) && !c19BinaryAsset(in) {
 				viol("input has non-zero bytesInOutput but none of its code is in that output", map[string]interface{}{"detail": rel + " <- " + in, "bytesInOutput": bi.BytesInOutput})
 			}
 			if bi.BytesInOutput == 0 && hasMarker {
